@@ -13,9 +13,9 @@ go build ./... 2>&1 | head -5
 suite=$(go test ./... 2>&1 | grep -v "no test files" | grep -vc "^ok")
 cp /tmp/confirm_$name/demo_test.go $demo
 go test ./$demodir -run TestSeededDemo -count=1 >/tmp/confirm_$name/with.txt 2>&1; with=$?
-git stash -q
+git apply -R /tmp/confirm_$name/patch.diff
 go test ./$demodir -run TestSeededDemo -count=1 >/tmp/confirm_$name/without.txt 2>&1; without=$?
-git stash pop -q
+git apply /tmp/confirm_$name/patch.diff
 echo "suite_nonok_lines=$suite demo_with_change_rc=$with demo_without_change_rc=$without"
 if [ "$suite" = "0" ] && [ "$with" != "0" ] && [ "$without" = "0" ]; then
   d=/verif/seeded/$name; mkdir -p $d
